@@ -1661,6 +1661,9 @@ fn tagfilter(literal: &[u8]) -> bool {
     for t in TAGFILTER_BLACKLIST.iter() {
         if lc.starts_with(t) {
             let j = i + t.len();
+            if j >= literal.len() {
+                return false;
+            }
             return isspace(literal[j])
                 || literal[j] == b'>'
                 || (literal[j] == b'/' && literal.len() >= j + 2 && literal[j + 1] == b'>');
